@@ -125,6 +125,7 @@ def check(ctx):
     ctx.rule("R3", "no slice bound `-n` is evaluated unless n > 0 is established (x[:-0] == [] trap)", floor=1)
     ctx.rule("R5", "SQLite backend: the GC query cuts on the same age column the backend orders reads by, newest first", floor=4)
     ctx.rule("R4", "removal is control-dependent on `force or size_over < hsize`", floor=1)
+    ctx.rule("R8", "the live session's file stays locked for as long as the session lives: every whole-file rewrite of the session's own file by a JsonHistory method (other than creating it) dumps a mapping that carries the file's metadata over - loaded from the file, or written with `locked` and `ts` - a file without them is, to every GC pass, the oldest unlocked one", floor=1)
     ctx.rule("R7", "the limit text is read in full and its unit by one exact table lookup: a regular expression applied to the limit matches the whole text (what it does not understand is an error, never dropped), and the unit spelling is a key of the unit table - no partial match against the table's keys", floor=2)
     ctx.rule("R6", "a session's file is marked unlocked only when the session ends (or by the reboot repair): the flag is cleared under the at-exit mode only, and only session-end code asks for that mode", floor=3)
 
@@ -424,6 +425,7 @@ def check(ctx):
 
     _lock_release(ctx)
     _limit_parsing(ctx)
+    _rewrite_keeps_lock(ctx)
 
 
 SESSION_END = {
@@ -651,6 +653,35 @@ def _limit_parsing(ctx):
                 partial.append(x)
     ctx.ob("R7", st, f"the unit is resolved by an exact lookup in {TABLE} (subscript / get)", n_lk >= 1, key="limit|unit-not-from-table", where=loc(fn))
     ctx.ob("R7", st, f"no partial match of the unit spelling against the keys of {TABLE} (a spelling the table does not list is an error: `MiB` must not become minutes, `sessions` not seconds)", not partial, key="limit|unit-partial-match", where=loc(partial[0]) if partial else loc(fn), detail=short(partial[0], 80) if partial else None)
+
+
+def _rewrite_keeps_lock(ctx):
+    from ..engine.loader import class_methods
+
+    mod = ctx.repo.module(JSON)
+    n = 0
+    for nm, m in class_methods(mod.cls("JsonHistory")).items():
+        if nm == "__init__":
+            continue  # creates the file from the metadata the session was started with
+        fn = flat(ctx, m, 2)
+        defs = df.all_defs(fn)
+        for c in calls_in(fn):
+            if (call_name(c) or "").split(".")[-1] not in ("ljdump", "dump") or not c.args or not (call_name(c) or "").split(".")[0] in ("xlj", "ljdump", "json", "lazyjson"):
+                continue
+            # only rewrites of the session's own file: the handle comes from open(self.filename, 'w')
+            w = next((a for a in ancestors(c) if isinstance(a, ast.With) and any(isinstance(it.context_expr, ast.Call) and call_name(it.context_expr) in ("open", "io.open") and it.context_expr.args and unparse(it.context_expr.args[0]) == "self.filename" and is_write_mode(open_mode(it.context_expr) or "r") for it in a.items)), None)
+            if w is None:
+                continue
+            n += 1
+            a0 = c.args[0]
+            srcs = [a0] if not isinstance(a0, ast.Name) else [d.value for d in defs.get(a0.id, []) if d.value is not None and d.kind == "assign"]
+            loaded = any(isinstance(v, ast.Call) and last_attr(v) == "load" for v in srcs)
+            shown = [v for v in srcs if isinstance(v, ast.Dict) and v.keys]
+            keys_ok = bool(shown) and all({"locked", "ts"} <= {const_value(k, None) for k in v.keys if k is not None} for v in shown)
+            ok = (loaded and not shown) or keys_ok or (loaded and keys_ok)
+            ctx.ob("R8", f"{JSON}:JsonHistory.{nm}", f"`{short(c, 50)}` rewrites the session's own file with its metadata (`locked`, `ts`) carried over", ok, key=f"JsonHistory.{nm}|rewrite-drops-lock", where=loc(c), detail=None if ok else f"dumped mapping comes from {[short(v, 50) for v in srcs]}")
+    if n == 0:
+        ctx.ob("R8", f"{JSON}:JsonHistory", "no method rewrites the session's own file in place (the flusher's read-extend-replace keeps whatever the file holds)", True, key="JsonHistory|no-own-rewrite")
 
 META = {
     "technique": "static analysis: def-use provenance of the removal set, CFG guard dominance, slice-shape rule over history/json.py",
